@@ -381,6 +381,40 @@ def rule_text_blocks(ck: Check, repo: Repo, rid: str = "R7") -> None:
 
 
 
+# ------------------------------------------------------------------ R8: the --output declaration and its use agree
+def rule_output_declaration(ck: Check, repo: Repo, rid: str = "R8") -> None:
+    """The command body treats `output` as click's LazyFile (`output.name`, `output.open()`).  click.File hands out a
+    LazyFile for every value only with `lazy=True`; with the default (lazy=None) a write-mode `-` is passed as the plain
+    stdout stream, which has no `.open()`: `reuse spdx -o -` then ends in AttributeError after the scan and emits nothing
+    (library semantics of click.File, table T2)."""
+    r = ck.rule(rid, "the declared type of --output provides what the command body calls on it (LazyFile for every value, `-` included)")
+    fn = repo.commands().get("spdx")
+    if fn is None:
+        raise AnalysisError("anchor vanished: command spdx")
+    q = repo.qualname_of(fn)
+    ck.analysed_fn(q)
+    n = 0
+    for d in fn.decorator_list:
+        if not (isinstance(d, ast.Call) and isinstance(d.func, ast.Attribute) and d.func.attr == "option"):
+            continue
+        ty = next((kw.value for kw in d.keywords if kw.arg == "type"), None)
+        if not (isinstance(ty, ast.Call) and ast.unparse(ty.func) in ("click.File", "File")):
+            continue
+        names = [a.value for a in d.args if isinstance(a, ast.Constant) and isinstance(a.value, str)]
+        dest = next((x for x in names if not x.startswith("-")), None) or max((x for x in names if x.startswith("--")), key=len, default="--output").lstrip("-").replace("-", "_")
+        n += 1
+        lazy = next((ast.unparse(kw.value) for kw in ty.keywords if kw.arg == "lazy"), ast.unparse(ty.args[4]) if len(ty.args) > 4 else None)
+        uses_open = any(isinstance(c, ast.Call) and isinstance(c.func, ast.Attribute) and c.func.attr == "open"
+                        and ast.unparse(c.func.value) == dest for c in ast.walk(fn))
+        r.instance(f"option:{dest}", {"declared": ast.unparse(ty), "lazy": lazy, "body_calls_open": uses_open}, q)
+        if uses_open and lazy != "True":
+            r.violation(q, f"`{dest}.open()` is called but the option is declared `{ast.unparse(ty)}`",
+                        "without lazy=True click opens `-` eagerly and passes the stdout stream itself, which has no open():"
+                        " `reuse spdx -o -` crashes with AttributeError after the whole project was scanned and no document is written",
+                        repo.loc(d))
+    r.floor(1, "click.File options of spdx", got=n)
+
+
 def run(ck: Check, repo: Repo) -> None:
     ck.explanation = (
         "Structure of the bill of materials decided on every path of bill_of_materials: both loops range over the"
@@ -398,6 +432,7 @@ def run(ck: Check, repo: Repo) -> None:
     rule_text_blocks(ck, repo)
     rule_checksum(ck, repo)
     rule_concluded(ck, repo)
+    rule_output_declaration(ck, repo)
     # 'a File section for every covered file and for no other file': the covered set (shared with C03-R1/R2)
     from . import c03
     from ..fold import Folder
